@@ -156,7 +156,7 @@ class C14(Check):
 
     def gen(self, rk, tier, idx):
         r = stream(rk, "cfg")
-        strategy = r.choice(["dimension_wise"] * 6 + ["extend_split"] * 4 + ["cell", "standard"] + ["dimension_wise_uq"] + ["dimension_wise_de"] * 2)
+        strategy = r.choice(["dimension_wise"] * 5 + ["extend_split"] * 4 + ["cell", "standard"] + ["dimension_wise_uq"] * 2 + ["dimension_wise_de"] * 2)
         if strategy == "standard":
             from engines import combi_drivers as CD
             cfg = CD.gen_standard_cfg(r, tier)
@@ -196,8 +196,12 @@ class C14(Check):
                 cfg["single_dim"] = False
         cfg.update(strategy=strategy, use_epoch=False, max_points=10 ** 6, estimator=r.choice(["keyed", "keyed", "real"]), clock_jumps=r.random() < 0.3)
         cfg["final"] = r.choice([20, 40, 70, 110, 160] if tier == "quick" else [40, 70, 110, 160, 250, 400])
-        if strategy in ("dimension_wise_de", "dimension_wise_uq"):
+        if strategy == "dimension_wise_de":
             cfg["estimator"] = "keyed"
+        if strategy == "dimension_wise_uq":
+            # the library's own estimator works on the helper grid handed to the strategy (grid_surplusses = the operation's
+            # weighted grid): one of the object aliases a restore has to bring back
+            cfg["estimator"] = stream(rk, "uq_estimator").choice(["keyed", "real"])
         if strategy == "dimension_wise" and cfg.get("grid"):
             # hierarchical / high-order global rules are slow (B-spline: seconds per evaluation beyond a hundred points): short, small histories
             cfg["final"] = r.choice([20, 40, 60])
